@@ -81,15 +81,25 @@ def handle (j : Json) : Except String Json := do
       | .arr #[.str k, .str "tmp", w, p] => fs := fs.set (.tmp k) (.data (← jNat w) (← jNat p))
       | _ => throw s!"bad fs0 entry {e.compress}"
     let mut outs : Array Json := #[]
+    -- the interrupted runs since the last complete run / planting, and the directory they started from: after every
+    -- interrupted step the whole history is replayed through `crashHistory` and must give the same directory
+    let mut hist : List (Interrupted K Nat) := []
+    let mut fsBase := fs
     for st in ← jArr (← field j "script") do
       match st with
       | .arr #[.str "crash", pj] =>
         let prog ← jList (jPair jStr jProgress) pj
-        fs := crashedRun mode size (fun (v : Nat) => v) (fun k => (prog.lookup k).getD .notStarted) fs inputs
-        outs := outs.push (Json.mkObj [("fs", snapshot fs keys)])
+        let h : Interrupted K Nat := .pool (fun k => (prog.lookup k).getD .notStarted) inputs
+        fs := h.apply mode size (fun (v : Nat) => v) fs
+        hist := hist ++ [h]
+        let same := (snapshot (crashHistory mode size (fun (v : Nat) => v) fsBase hist) keys).compress == (snapshot fs keys).compress
+        outs := outs.push (Json.mkObj [("fs", snapshot fs keys), ("history_ok", .bool same)])
       | .arr #[.str "seqcrash", .str victim, c] =>
-        fs := runKilled mode size (fun (v : Nat) => v) victim (← jNat c) fs inputs
-        outs := outs.push (Json.mkObj [("fs", snapshot fs keys)])
+        let h : Interrupted K Nat := .seq victim (← jNat c) inputs
+        fs := h.apply mode size (fun (v : Nat) => v) fs
+        hist := hist ++ [h]
+        let same := (snapshot (crashHistory mode size (fun (v : Nat) => v) fsBase hist) keys).compress == (snapshot fs keys).compress
+        outs := outs.push (Json.mkObj [("fs", snapshot fs keys), ("history_ok", .bool same)])
       | .arr #[.str "plant", ents] =>
         -- files put into the directory from outside, between runs
         for e in ← jArr ents do
@@ -97,15 +107,22 @@ def handle (j : Json) : Except String Json := do
           | .arr #[.str k, .str "final", w, p] => fs := fs.set (.final k) (.data (← jNat w) (← jNat p))
           | .arr #[.str k, .str "tmp", w, p] => fs := fs.set (.tmp k) (.data (← jNat w) (← jNat p))
           | _ => throw s!"bad plant entry {e.compress}"
+        hist := []
+        fsBase := fs
         outs := outs.push (Json.mkObj [("fs", snapshot fs keys)])
       | .arr #[.str "run"] =>
         match parallelise Gen.refusesDuplicateKeys mode size (fun (v : Nat) => v) fs inputs with
         | none =>
           outs := outs.push (Json.mkObj [("out", .str "refused"), ("calls", .arr #[]), ("fs", snapshot fs keys)])
         | some r =>
+          hist := []
+          fsBase := r.fs
+          -- the same inputs processed in reverse order and reported in input order (`pool.map`), and the uncached run
+          let sched := runSched mode size (fun (v : Nat) => v) fs inputs.reverse inputs
           fs := r.fs
           outs := outs.push (Json.mkObj [("out", outJ r.out),
-            ("calls", .arr (r.calls.map Json.str).toArray), ("fs", snapshot fs keys)])
+            ("calls", .arr (r.calls.map Json.str).toArray), ("fs", snapshot fs keys),
+            ("sched", outJ sched), ("uncached", outJ (.ok (uncached (fun (v : Nat) => v) inputs)))])
       | _ => throw s!"bad script step {st.compress}"
     pure (.arr outs)
 
